@@ -201,3 +201,63 @@ Fixpoint contiguous (s : Z) (rs : list (Z * Z)) (e : Z) : Prop :=
   | [] => s = e
   | (a, b) :: r => a = s + 1 /\ a <= b /\ contiguous b r e
   end.
+
+(* ------------------------------------------------------------------------------------------ *)
+(* hermes_main.go:37-149   the command line is consumed option by option, left to right; every
+   option assigns its own variables.  [OBatch dir lines]: -batch f, f already read through the
+   reader specification above (lines = its non-empty lines, appended to configLines; dir = the
+   file's directory, taken as working directory only if none is set yet).  The three forms of
+   -lines: "a-b" (a > b: log.Fatal), "a-end", "N".  Strings (-module, -workingdir) are opaque Z. *)
+Record pstate {A : Type} := mk_pstate {
+  p_lines : list A;       (* configLines *)
+  p_start : Z;            (* startLine, initially 0 *)
+  p_end : Z;              (* endLine, initially -1 *)
+  p_conc : Z;             (* concurrentOperations, initially 10 *)
+  p_log : bool;           (* writeLogoutput *)
+  p_module : Z;           (* module, initially "single" = 0; "batch" = 1 *)
+  p_wd : option Z         (* workingDir, None = "" *)
+}.
+Arguments pstate : clear implicits.
+Arguments mk_pstate {A}.
+
+Inductive opt {A : Type} :=
+| OBatch (dir : Z) (lines : list A)
+| OLinesRange (a b : Z) | OLinesFrom (a : Z) | OLinesFirst (n : Z)
+| OConcurrent (c : Z) | OLogoutput | OModule (m : Z) | OWorkingdir (w : Z).
+Arguments opt : clear implicits.
+
+Definition opt_kind {A} (o : opt A) : nat :=
+  match o with
+  | OBatch _ _ => 0 | OLinesRange _ _ | OLinesFrom _ | OLinesFirst _ => 1
+  | OConcurrent _ => 2 | OLogoutput => 3 | OModule _ => 4 | OWorkingdir _ => 5
+  end%nat.
+
+Definition pinit {A} : pstate A := mk_pstate [] 0 (-1) 10 false 0 None.
+
+Definition parse_step {A} (st : pstate A) (o : opt A) : option (pstate A) :=
+  let '(mk_pstate ls s e c lg m wd) := st in
+  match o with
+  | OBatch dir lines =>                                                          (* :44-78 *)
+      Some (mk_pstate (ls ++ lines) s e c lg m (match wd with None => Some dir | Some w => Some w end))
+  | OLinesRange a b => if b <? a then None else Some (mk_pstate ls (a - 1) b c lg m wd)   (* :101-120 *)
+  | OLinesFrom a => Some (mk_pstate ls (a - 1) e c lg m wd)                      (* "a-end": endLine untouched *)
+  | OLinesFirst n => Some (mk_pstate ls s n c lg m wd)                           (* :121-129 *)
+  | OConcurrent c' => Some (mk_pstate ls s e c' lg m wd)                         (* :90-97 *)
+  | OLogoutput => Some (mk_pstate ls s e c true m wd)                            (* :133 *)
+  | OModule m' => Some (mk_pstate ls s e c lg m' wd)                             (* :40-42 *)
+  | OWorkingdir w => Some (mk_pstate ls s e c lg m (Some w))                     (* :79-88 *)
+  end.
+
+Fixpoint parse_opts_from {A} (st : pstate A) (opts : list (opt A)) : option (pstate A) :=
+  match opts with
+  | [] => Some st
+  | o :: r => match parse_step st o with Some st' => parse_opts_from st' r | None => None end
+  end.
+Definition parse_opts {A} (opts : list (opt A)) : option (pstate A) := parse_opts_from pinit opts.
+
+(* what one program start executes (module batch): the dispatch loop on the parsed values *)
+Definition cmd_executed {A} (opts : list (opt A)) : option (list (Z * A)) :=
+  match parse_opts opts with
+  | Some st => Some (dispatch 0 (p_start st) (p_end st) (p_lines st))
+  | None => None
+  end.
